@@ -208,8 +208,12 @@ _LITERALS = {}
 
 
 def empty_map(ty):
+    # the value array of an empty mapping is one fixed, otherwise unconstrained array per map type
+    # (content under absent keys is never observable); not a constant-array term, whose default
+    # cvc5 only accepts as a literal value
+    name = 'emptyvals_' + ''.join(ch if ch.isalnum() else '_' for ch in ty.key())
     return ty.mk(z3.Empty(z3.SeqSort(elem_sort(ty.k))),
-                 z3.K(ty.k.sort(), default_term(ty.v)))
+                 z3.Const(name, z3.ArraySort(ty.k.sort(), ty.v.sort())))
 
 
 def default_term(ty):
